@@ -8,7 +8,7 @@ import gen as G
 
 PROP = 'C03'
 THEOREMS = ['inverse_certificate', 'stationary_certificate', 'hs_rowsum_stationary', 'hs_positive',
-            'aggregation_is_partition', 'hs_identity_lumping_thm', 'hs_refuses_nonergodic', 'hs_labels']
+            'aggregation_is_partition', 'hs_identity_lumping_thm', 'hs_refuses_nonergodic', 'hs_labels', 'gauss_jordan_inverse_sound', 'gauss_jordan_inverse_complete', 'hs_total_on_ergodic_input']
 CONFIGS = [dict(jit=True)]
 CONFIGS_THOROUGH = [dict(jit=True), dict(jit=False)]
 RULE = ('Markov-structured micro trajectories (2..7 microstates quick, ..8 thorough; 1..3 trajectories; '
@@ -20,7 +20,8 @@ RULE = ('Markov-structured micro trajectories (2..7 microstates quick, ..8 thoro
         'Non-trivial: >= 3 microstates and a non-identity lumping.'
         ' Added classes: bad lumpings of driven ring walks (raw projection with negative and > 1 entries in one row), irreducible periodic micro chains (must be refused), the same lumped object estimated at other lag times first, arrays handed out by the object overwritten before the estimate.')
 TRUSTED = ['LAPACK inv / eig inside the implementation (compared within 1e-8)',
-           'invertibility of the fundamental matrices is certified per case (exact K*Z = I check), not proved']
+           'the run-time certificates (K*Z = Z*K = I, N*M = M*N = I) are kept, but are now redundant: existence of both '
+           'inverses and of the stationary vector on ergodic input is proved (hs_total_on_ergodic_input)']
 ASSUMPTIONS = ['micro model ergodic away from the 1e-8 threshold (threshold-free cases only)']
 BATCH = 200
 TOL = Fraction(1, 10**8)
